@@ -183,4 +183,68 @@ theorem delBond_sym {m m' : Mol} {a b : Nat} (h : gDelBond m a b = .ok m') (hs :
     cases hq : (x == b) with
     | false => simp [bne, hq]
     | true => have := hy0.2.2 hq; simp at this
+
+/-! ## hydrogen-relevant environments under bond edits -/
+
+theorem lookup_insertNbr_ne (adj : List (Nat × List (Nat × Bond))) (a k n : Nat) (bd : Bond) (h : n ≠ a) :
+    (insertNbr adj a k bd).lookup n = adj.lookup n := by
+  induction adj with
+  | nil => rfl
+  | cons p rest ih =>
+    obtain ⟨x, l⟩ := p
+    simp only [insertNbr, List.map_cons]
+    by_cases hx : x == a
+    · have hxa : x = a := beq_iff_eq.mp hx
+      have hnx : (n == x) = false := by rw [hxa]; exact beq_false_of_ne h
+      simp only [hx, if_true, List.lookup_cons, hnx]
+      exact ih
+    · simp only [hx, if_false, Bool.false_eq_true, List.lookup_cons]
+      cases hnx : n == x
+      · exact ih
+      · rfl
+
+theorem lookup_eraseNbr_ne (adj : List (Nat × List (Nat × Bond))) (a k n : Nat) (h : n ≠ a) :
+    (eraseNbr adj a k).lookup n = adj.lookup n := by
+  induction adj with
+  | nil => rfl
+  | cons p rest ih =>
+    obtain ⟨x, l⟩ := p
+    simp only [eraseNbr, List.map_cons]
+    by_cases hx : x == a
+    · have hxa : x = a := beq_iff_eq.mp hx
+      have hnx : (n == x) = false := by rw [hxa]; exact beq_false_of_ne h
+      simp only [hx, if_true, List.lookup_cons, hnx]
+      exact ih
+    · simp only [hx, if_false, Bool.false_eq_true, List.lookup_cons]
+      cases hnx : n == x
+      · exact ih
+      · rfl
+
+theorem envOf_congr {m m' : Mol} {n : Nat} (ha : m'.atoms = m.atoms) (hn : m'.adj.lookup n = m.adj.lookup n) :
+    envOf m' n = envOf m n := by
+  simp [envOf, Mol.atom?, Mol.nbrs, ha, hn]
+
+/-- **pending set is sound for add_bond**: only the two end atoms see a different environment -/
+theorem addBond_env {m m' : Mol} {a b order n : Nat} (h : gAddBond m a b order = .ok m') (hna : n ≠ a) (hnb : n ≠ b) :
+    envOf m' n = envOf m n := by
+  unfold gAddBond at h
+  split at h; · cases h
+  split at h; · cases h
+  split at h; · cases h
+  split at h; · cases h
+  cases h
+  refine envOf_congr (m := m) (by rfl) ?_
+  simp only
+  rw [lookup_insertNbr_ne _ _ _ _ _ hnb, lookup_insertNbr_ne _ _ _ _ _ hna]
+
+/-- **pending set is sound for delete_bond** -/
+theorem delBond_env {m m' : Mol} {a b n : Nat} (h : gDelBond m a b = .ok m') (hna : n ≠ a) (hnb : n ≠ b) :
+    envOf m' n = envOf m n := by
+  unfold gDelBond at h
+  split at h; · cases h
+  split at h; · cases h
+  cases h
+  refine envOf_congr (m := m) (by rfl) ?_
+  simp only
+  rw [lookup_eraseNbr_ne _ _ _ _ hnb, lookup_eraseNbr_ne _ _ _ _ hna]
 end ChythonModel.Proofs.C13
